@@ -305,7 +305,8 @@ def applyBuiltin (ctx : Ctx) (b : Builtin) (ps : List Value) : Outcome Value :=
     match Ctx.lookupRegex ctx.regex re t with
     | some (some r) => .ok (.bool r)
     | some none => .err .functionError
-    | none => .panic "need-regex"     -- the harness re-sends the case with the answer
+    -- the harness re-sends the case with the answer of the `regex` crate in `ctx.regex`
+    | none => .panic ("need-regex " ++ hexOfStr re ++ " " ++ hexOfStr t)
   | .duration, [.str s] => match Dur.parse s with
     | some ns => .ok (.dur ns)
     | none => .err .functionError
